@@ -86,7 +86,7 @@ def paragraph_problem(key, text, wc, common):
         if pos not in reach:
             continue
         for cnt, start in list(reach[pos]):
-            if cnt > wc:
+            if cnt > wc + 60:
                 continue
             for w in allw:
                 form = w.capitalize() if start else w
@@ -189,6 +189,7 @@ SHAPES = [
     ('p>%s*2', r'^<p><span>' + P + r'</span><span>' + P + r'</span></p>$', [True, False]),
     ('div*2>p>%s', '^<div>\n\t<p>' + P + '</p>\n</div>\n<div>\n\t<p>' + P + '</p>\n</div>$', [True, False]),
     ('%s+%s', '^' + P + r'\n' + P + '$', [True, True]),
+    ('ul>%s.c#i[title=t]*2', r'^<ul>\n\t<li>' + P + r'</li>\n\t<li>' + P + r'</li>\n</ul>$', [True, False]),
     ('ol>%s*2', r'^<ol>\n\t<li>' + P + r'</li>\n\t<li>' + P + r'</li>\n</ol>$', [True, False]),
 ]
 
@@ -517,6 +518,18 @@ def run_pipeline(ctx, lmodel):
         'cases': len(wires), 'disagreements': dis, 'paragraphs_checked_by_the_oracle': n_par}
 
 
+def long_count_probe(ctx):
+    """Observation (known finding): the digits of a lorem header go through int(); more than CPython converts is a ValueError."""
+    for abbr in ('lorem' + '7' * 4301, 'ul>lorem5-' + '1' * 4301 + '*2'):
+        r, o = impl_expand_oracle(abbr, {})
+        ctx.count_eval()
+        ctx.cover('lorem:long-count:' + str(r[0]))
+        bad = oracle_c07(r)
+        if bad:
+            ctx.property_failure('lorem-long-count:' + str(r[1]), 'lorem expand(%r + %d digits ...): %s' % (abbr[:10], 4301, bad),
+                                 {'component': 'lorem', 'abbr': abbr, 'config': {}, 'draws': [], 'impl': repr(r)[:200], 'why': bad})
+
+
 def replay_lorem(rp):
     abbr, cfg = rp['abbr'], rp.get('config') or {}
     r, o = impl_expand_oracle(abbr, cfg, draws=rp.get('draws') or [])
@@ -538,6 +551,7 @@ def run_lorem(ctx, model):
     run_units(ctx, lmodel)
     run_headers(ctx, lmodel)
     run_pipeline(ctx, lmodel)
+    long_count_probe(ctx)
     ctx.cov['rule'] = ctx.cov.get('rule', '') + (
         ' lorem text (coq/model/MarkupLorem.v + the lorem pass of MarkupResolve.v; harness/lorem_util.py): every implementation run '
         'of this check goes through a deterministic ORACLE bound to emmet.markup.lorem.randint (one PRNG state per case, raw draws '
